@@ -17,7 +17,7 @@ RULE = ('cases = q = x/y, scalar/y and elementwise_divide(x,y,eps,...) for TT te
 ASSUMPTIONS = ['"within the solver tolerance" is fixed a priori as 100*tol (the AMEn residual is controlled per local problem; the constant absorbs sqrt(d) and the damping factor)',
                'divisor entries are certified in [1,2] by the harness; nothing is claimed for divisors with entries near zero']
 REQUIRED_REACH = ['_division:amen_divide', '_tt_base:TT.__truediv__', '_tt_base:TT.__rtruediv__', '_extras:elementwise_divide']
-REQUIRED_COUNTS = {'form:x/y': 1, 'form:s/y': 1, 'form:elementwise_divide': 1, 'form:x/scalar': 1, 'opt:preconditioner-c': 1, 'opt:starting_tensor': 1, 'opt:starting_tensor(near-solution)': 5, 'executions': 100}
+REQUIRED_COUNTS = {'form:x/y': 1, 'form:s/y': 1, 'form:elementwise_divide': 1, 'form:x/scalar': 1, 'opt:preconditioner-c': 1, 'divisor:rank-one': 5, 'opt:starting_tensor': 1, 'opt:starting_tensor(near-solution)': 5, 'executions': 100}
 LINE_FUNCS = ['amen_divide', 'TT.__truediv__', 'TT.__rtruediv__']
 CASE_TIMEOUT = {'quick': 300, 'thorough': 600}
 MAX_TIMEOUT_FRACTION = 0.0
@@ -38,6 +38,8 @@ def cases(tier, seed):
         form = ['x/y', 's/y', 'elementwise_divide', 'elementwise_divide'][i % 4]
         base = {'gen': 'div', 'form': form, 'N': N, 'Rx': gens.rank_profile(rng, d, 'rand', 4), 'Rz': gens.rank_profile(rng, d, 'rand', 2), 'eps': 10 ** rng.uniform(-10, -3),
                 'prec': 'c' if (i // 4) % 3 == 1 else None, 'start': (i // 4) % 2 == 1, 'scalar': rng.choice([1.0, 2, -3.5, 0.125]), 'vseed': rng.randrange(2 ** 40)}
+        if i % 5 == 4:
+            base['ykind'] = 'rank1'       # separable positive divisor (all TT ranks 1): y = y_1 x ... x y_d with every factor in [1, 2^(1/d)]
         for j in range(k):
             c = dict(base)
             c['sidx'] = j
@@ -132,6 +134,10 @@ def run_div(case, ctx, g):
     zr = float(case.get('zrange', 1.0))      # |z| <= zrange: divisor entries in [1, 1 + zrange^2]
     z = ctx.call('TT*scalar', lambda a: a * (zr / max(zmax, 1e-300)), z)
     y = ctx.call('TT*TT+1', lambda a: a * a + 1.0, z)
+    if case.get('ykind') == 'rank1':
+        top = 2.0 ** (1.0 / d)
+        y = ctx.call('rank1TT', lambda: torchtt.rank1TT([1.0 + (top - 1.0) * torch.rand(n, generator=g, dtype=dt) for n in N]))
+        ctx.count('divisor:rank-one')
     dy = dn.D(y)
     if not (float(dy.min()) >= 1.0 - 1e-9 and float(dy.max()) <= 1.0 + zr * zr + 1e-9):
         ctx.count('rejected:divisor-not-in-[1,2]')
